@@ -28,10 +28,11 @@ pub async fn handle_did_open_text_document(
     let (uri, session) = state.uri_and_session_from_workspace(&params.text_document.uri)?;
     state.documents.handle_open_file(&uri).await;
 
-    send_new_compilation_request(state, session.clone(), &uri, None, false, sync_workspace);
-    #[cfg(fuellabs_sway_verif)]
-    crate::verif::point("H", "set_ic_late", 0);
-    state.is_compiling.store(true, Ordering::SeqCst);
+    // `is_compiling` is raised by `send_new_compilation_request` *before* the request is sent.
+    // Raising it here, after the send, could happen after the compilation thread has already
+    // finished this very request and reset the flag: the flag would then stay set with nothing
+    // running and every `wait_for_parsing` (including the one below) would wait forever.
+    send_new_compilation_request(state, session.clone(), &uri, None, false, sync_workspace, true);
     state.wait_for_parsing().await;
     state
         .publish_diagnostics(uri, params.text_document.uri, session)
@@ -47,6 +48,7 @@ fn send_new_compilation_request(
     version: Option<i32>,
     optimized_build: bool,
     sync_workspace: Arc<SyncWorkspace>,
+    mark_compiling: bool,
 ) {
     let file_versions = file_versions(&state.documents, uri, version.map(|v| v as u64));
 
@@ -72,6 +74,14 @@ fn send_new_compilation_request(
             #[cfg(fuellabs_sway_verif)]
             crate::verif::point("H", "try_recv", 0);
         }
+    }
+
+    if mark_compiling {
+        // The compilation thread resets the flag only after it has processed this request (or a
+        // newer one that replaced it), so this store can never outlive the compilation.
+        #[cfg(fuellabs_sway_verif)]
+        crate::verif::point("H", "set_ic", 0);
+        state.is_compiling.store(true, Ordering::SeqCst);
     }
 
     #[cfg(fuellabs_sway_verif)]
@@ -121,6 +131,7 @@ pub async fn handle_did_change_text_document(
         // TODO: Set this back to true once https://github.com/FuelLabs/sway/issues/6576 is fixed.
         false,
         sync_workspace,
+        false,
     );
     Ok(())
 }
@@ -151,7 +162,7 @@ pub(crate) async fn handle_did_save_text_document(
         .remove_dirty_flag(&params.text_document.uri)?;
     let (uri, session) = state.uri_and_session_from_workspace(&params.text_document.uri)?;
     let sync_workspace = state.get_sync_workspace_for_uri(&params.text_document.uri)?;
-    send_new_compilation_request(state, session.clone(), &uri, None, false, sync_workspace);
+    send_new_compilation_request(state, session.clone(), &uri, None, false, sync_workspace, false);
     state.wait_for_parsing().await;
     state
         .publish_diagnostics(uri, params.text_document.uri, session)
